@@ -93,6 +93,12 @@ func c11Assign(kind int) map[string][]*target.Target {
 	switch kind {
 	case 1:
 		out["j1"] = []*target.Target{mk(11, "a:1", "http")}
+	case 4:
+		out["j1"] = []*target.Target{
+			mk(21, "bb:9115", "http", labels.Label{Name: "__param_target", Value: "https://a.example"}),
+			mk(22, "bb:9115", "http", labels.Label{Name: "__param_target", Value: "https://b.example"}),
+			mk(23, "bb:9115", "http", labels.Label{Name: "__param_target", Value: "https://c.example"}, labels.Label{Name: "__param_module", Value: "icmp"}),
+		}
 	case 2, 3:
 		out["j1"] = []*target.Target{mk(11, "a:1", "https", labels.Label{Name: "env", Value: "prod"}), mk(12, "b:2", "http", labels.Label{Name: target.PrefixForInvalidLabelName + "1ab", Value: "x"})}
 		if kind == 3 {
@@ -145,7 +151,16 @@ func c11Check(text string, assignKind int, monitor bool, secSecrets []string) (g
 			chk.Fatalf("C11 history config rejected: %v\n%s", err, h.text)
 		}
 		fresh, err1 := pipe.Inject(hinfo, c11Assign(h.assign), opt)
-		after, err2 := pipe.InjectHistory([]pipe.Step{{Info: info, Assigned: assigned}, {Info: h.info(hinfo), Assigned: h.assigned()}}, opt)
+		steps := []pipe.Step{{Info: info, Assigned: assigned}}
+		if h.via != "" {
+			vinfo, err := pipe.LoadInfo(h.via)
+			if err != nil {
+				chk.Fatalf("C11 intermediate config rejected: %v", err)
+			}
+			steps = append(steps, pipe.Step{Info: vinfo})
+		}
+		steps = append(steps, pipe.Step{Info: h.info(hinfo), Assigned: h.assigned()})
+		after, err2 := pipe.InjectHistory(steps, opt)
 		if err1 != nil || err2 != nil {
 			add("history", "C11:history-error:"+h.name, fmt.Sprintf("%v / %v", err1, err2))
 		} else if string(fresh) != string(after) {
@@ -303,7 +318,7 @@ func init() {
 				for _, au := range c11Auth {
 					for _, di := range c11Disc {
 						for _, se := range c11Sec {
-							for as := 0; as < 4; as++ {
+							for as := 0; as < 5; as++ {
 								for _, mon := range []bool{false, true} {
 									run(js, au, di, se, as, mon)
 								}
@@ -323,7 +338,7 @@ func init() {
 				}
 			}
 			for _, se := range c11Sec {
-				for as := 0; as < 4; as++ {
+				for as := 0; as < 5; as++ {
 					for _, mon := range []bool{false, true} {
 						run(c11JobSettings[2], c11Auth[1], c11Disc[2], se, as, mon)
 					}
@@ -345,6 +360,7 @@ func init() {
 }
 
 type c11History struct {
+	via       string // an intermediate configuration applied before the final one
 	name      string
 	text      string
 	assign    int
@@ -382,6 +398,9 @@ func c11Histories(text string, assignKind int) []c11History {
 	// a job setting changes
 	out = append(out, c11History{name: "reload-job-setting", text: strings.Replace(text, "- job_name: j2\n", "- job_name: j2\n  params:\n    module: [z]\n", 1), assign: assignKind, newConfig: true})
 	// only the assignment changes
-	out = append(out, c11History{name: "assignment-change", text: text, assign: (assignKind + 1) % 4, newAssign: true})
+	out = append(out, c11History{name: "assignment-change", text: text, assign: (assignKind + 1) % 5, newAssign: true})
+	// a job disappears from the configuration and comes back (rollback), no new assignment in between
+	out = append(out, c11History{name: "job-removed-then-restored", text: text, assign: assignKind, newConfig: true,
+		via: strings.Replace(text, "- job_name: j1\n", "- job_name: j1gone\n", 1)})
 	return out
 }
